@@ -142,6 +142,21 @@ static void caseC01(uint64_t idx, vh::Rng& g)
 	R->phase("expl/default-params");
 	try { Aut x = mk(a, "A"), y = mk(b, "B"); judge("C01", "expl/default-params", Aut::CheckInclusion(x, y), ref, -1); }
 	catch (std::exception& e) { R->violation("C01/expl/default-params/exception", e.what()); }
+	if (idx % static_cast<uint64_t>(R->param("cli_every", 200)) == 0)
+	{	// the same pair through the command-line tool (option parsing -> dispatch -> simulation protocol of cli/operations.hh)
+		std::string fa = R->outdir + "/" + R->tag + ".A.txt", fb = R->outdir + "/" + R->tag + ".B.txt";
+		writeFile(fa, rm::toTimbuk(a, al, "A")); writeFile(fb, rm::toTimbuk(b, al, "B"));
+		for (const Sel& s : SELS)
+		{
+			if (s.down && !s.sim && !small) continue;
+			std::string opt = std::string("dir=") + (s.down ? "down" : "up") + ",rec=" + (s.rec ? "yes" : "no") + ",optC=" + (s.opt ? "yes" : "no") + ",sim=" + (s.sim ? "yes" : "no");
+			std::string sel = std::string("cli-expl/") + s.name; R->phase(sel); int rc = 0;
+			std::string out = runVata("-r expl -o " + opt + " incl " + fa + " " + fb, rc);
+			if (rc != 0 || (out.compare(0, 1, "1") != 0 && out.compare(0, 1, "0") != 0)) R->violation("C01/" + sel + "/cli-failed", "exit " + vh::str(rc) + ": " + out.substr(0, 300));
+			else judge("C01", sel, out[0] == '1', ref, -1);
+		}
+		{ int rc = 0; std::string out = runVata("-r expl -o dir=down,rec=no,optC=yes incl " + fa + " " + fb, rc); R->count("runs-unimplemented:cli-expl/down-nonrec-opt"); if (rc == 0) R->violation("C01/cli-expl/down-nonrec-opt/no-error", "unimplemented selection printed: " + out.substr(0, 100)); }
+	}
 	if (idx % 16 == 0)
 	{	// unimplemented selections must throw NotImplementedException
 		Aut x = mk(a, "A"), y = mk(b, "B");
@@ -223,6 +238,20 @@ static void caseC07(uint64_t idx, vh::Rng& g)
 		std::string nm = "bdd-bu/down-rec+sim"; R->phase(nm);
 		try { SharedDict sd; auto x = loadText<BDDBottomUpTreeAut>(sa, sd), y = loadText<BDDBottomUpTreeAut>(sb, sd); InclParam ip = mkParam(SELS[5]); judge("C07", nm, BDDBottomUpTreeAut::CheckInclusion(x, y, ip), ref, expl); }
 		catch (std::exception& e) { R->violation("C07/" + nm + "/exception", e.what()); }
+	}
+	if (idx % static_cast<uint64_t>(R->param("cli_every", 200)) == 0)
+	{
+		std::string fa = R->outdir + "/" + R->tag + ".A.txt", fb = R->outdir + "/" + R->tag + ".B.txt"; writeFile(fa, sa); writeFile(fb, sb);
+		struct C { const char* repr; const char* opt; const char* name; bool heavy; } cs[] = {
+			{"bdd-td", "dir=down,rec=yes,optC=no", "cli-bdd-td/down-rec", true}, {"bdd-td", "dir=down,rec=yes,optC=yes", "cli-bdd-td/down-rec-opt", true},
+			{"bdd-bu", "dir=up", "cli-bdd-bu/up", false}, {"bdd-bu", "dir=down,rec=yes,sim=yes", "cli-bdd-bu/down-rec+sim", false}};
+		for (auto& c : cs)
+		{
+			if (c.heavy && !small) continue;
+			R->phase(c.name); int rc = 0; std::string out = runVata(std::string("-r ") + c.repr + " -o " + c.opt + " incl " + fa + " " + fb, rc);
+			if (rc != 0 || (out.compare(0, 1, "1") != 0 && out.compare(0, 1, "0") != 0)) R->violation(std::string("C07/") + c.name + "/cli-failed", "exit " + vh::str(rc) + ": " + out.substr(0, 300));
+			else judge("C07", c.name, out[0] == '1', ref, expl);
+		}
 	}
 	if (idx % 16 == 0)
 	{
